@@ -74,7 +74,19 @@ class C06(Prop):
                     ctor = b
                     cur = truth_apply(cur, b) or cur
             batches = []
-            for _ in range(rng.randint(1, 6 if tier == "thorough" else 4)):
+            if rng.random() < 0.15 and ctor is None:
+                # one name walks through temporaries and RETURNS to a name it held before (a -> t1 -> t2 -> t1 [-> a])
+                p0 = rng.choice(cur)
+                free = [q for q in POOL if q not in cur]
+                if len(free) >= 2:
+                    t1, t2 = rng.sample(free, 2)
+                    walk = [[[p0, t1]], [[t1, t2]], [[t2, t1]]] + ([[[t1, p0]]] if rng.random() < 0.5 else [])
+                    for b in walk:
+                        batches.append(b)
+                        cur = truth_apply(cur, b) or cur
+                    if p0 not in defaults and rng.random() < 0.7:
+                        defaults[p0] = rng.randint(10, 99)
+            for _ in range(rng.randint(0 if batches else 1, 6 if tier == "thorough" else 4)):
                 b = rand_batch(rng, cur)
                 batches.append(b)
                 cur = truth_apply(cur, b) or cur
@@ -218,7 +230,7 @@ class C06(Prop):
                 inp = sent.get("inp")
                 exp = {"t": ["f", i, inp]} if n > 1 else {"t": ["f", inp]}
                 if case["target"] == "graph-out" or True:
-                    if got != exp:
+                    if impl.differ(got, exp):
                         return f"output originally named {o!r} (now {truth[o]!r}) holds {got!r}, expected {exp!r}"
             return None
         # inputs: the wrapped function must receive, under each ORIGINAL parameter, the value addressed by its current name,
